@@ -1,5 +1,6 @@
 (* Scratch prototype: faithful model of scanner/scanner.go and parser/parser.go *)
 From Coq Require Import List NArith Bool Lia.
+Require Unicode.
 Import ListNotations.
 Open Scope N_scope.
 
@@ -8,9 +9,8 @@ Definition str := list rune.
 Definition NL : rune := 10. Definition DOT : rune := 46. Definition BS : rune := 92. Definition DQ : rune := 34.
 
 (* unicode.IsSpace for the prototype (the real table is generated) *)
-Definition is_space (c : rune) : bool :=
-  ((9 <=? c) && (c <=? 13)) || (c =? 32) || (c =? 133) || (c =? 160) || (c =? 5760)
-  || ((8192 <=? c) && (c <=? 8202)) || (c =? 8232) || (c =? 8233) || (c =? 8239) || (c =? 8287) || (c =? 12288).
+(* unicode.IsSpace: the toolchain's White_Space table, regenerated into Gen/Tables.v *)
+Definition is_space (c : rune) : bool := Unicode.is_space c.
 
 Inductive sstate := BlockStart | QuotedArg | NewArg | ArgEnd | ArgMore | CommentLine | MacroName | TextBlock | SEnd.
 Inductive token := ESCAPE | IESCAPE | AESCAPE | NAESCAPE | NFESCAPE | TEXT | MACRO_NAME | MACRO_END | ARG_END | COMMENT | EXTEND_LINE | ILLEGAL | EOF.
